@@ -68,6 +68,14 @@ CHECKS = {
         text="(A) every key-addressed operation x all keys of <=1 byte/char over the full alphabet (thorough: <=2), 2-3 chars over a 16-class projection, boundary-length keys, the empty key x 3 prefixes (one containing a space) x allow_unicode_keys x str/bytes; (B) store operations x a corpus of values made of protocol text x ascii/utf8; (C) every integer parameter x protocol boundary values and a menu of non-integers (float, str, bytes, None, bool, list, CR LF payloads); (D) multi-key calls (1-4 and 16..2050 keys) with an illegal key at every / selected position(s); (E) a flag-using serializer x explicit flags. Either MemcacheIllegalInputError with zero bytes written, or the strict parser reads exactly the intended commands.",
         note="Trusted: vmc/strictparse.py as the definition of well-formed. Integers outside protocol ranges are not judged. Known finding: the empty key with an empty prefix (pinned by the suite).",
     ),
+    "C05": dict(
+        engine="E2-explicit-state-bfs",
+        level="model_checking",
+        technique="explicit-state level-synchronous BFS over operation histories of the real Client against a reference server, canonical-state de-duplication, lockstep comparison with an abstract map-with-expiry-and-cas on every transition",
+        design_ref="DESIGN.md section 3 / C05",
+        text="From three seeded initial states (empty, a counter at 2^64-1, a counter at 0) and for 4 configurations (key prefix x default_noreply), all histories over ~110 events per state (every store verb, cas with remembered/zero/foreign token, get/gets/gat/gats/multi-gets, touch, delete(_many), incr/decr, flush_all with and without delay, set_many, clock advances 1 and 10; noreply default and explicit) on two keys chosen to collide if prefixing is wrong are explored breadth-first to depth 3 (quick) / 6 or fixpoint (thorough). Every transition executes the real client and compares its return value with AbstractCache and the server's contents with the abstract contents.",
+        note=TB + "AbstractCache (vmc/abstractcache.py) encodes the documented contract; values grow to <=2 (thorough 3) bytes and counters to 3; beyond the depth cap states are not expanded (caps_hit).",
+    ),
 }
 
 PENDING = "check not built yet in this session; planned engine and oracle are in DESIGN.md section 3"
@@ -75,7 +83,7 @@ NOT_APPLICABLE = {f"C{i:02d}": PENDING for i in range(1, 21)}
 
 ENGINES = [
     {"name": "E2-explicit-state-bfs", "path": "checks/c09.py (pattern shared by C05, C11, C13, C19)",
-     "serves_properties": ["C09"],
+     "serves_properties": ["C05", "C09"],
      "kind_free_text": "explicit-state BFS: a state is the event history reaching it, rebuilt on fresh real objects; canonical form de-duplicates; every transition runs the implementation"},
     {"name": "input-enumerator", "path": "checks/c02.py, checks/c20.py (and c14, c15, c17, c18)",
      "serves_properties": ["C02", "C20"],
